@@ -1,5 +1,5 @@
 (** C15 — download policies persist and decide downloads exactly as specified. *)
-From ID Require Import Model.StoreOps Proofs.StoreFacts Proofs.PolicyFacts Base.BytesFacts Proofs.CapFacts.
+From ID Require Import Model.StoreOps Proofs.StoreFacts Proofs.PolicyFacts Base.BytesFacts Proofs.CapFacts Proofs.SettingsFacts.
 
 Theorem C15_get_after_set : forall T ns p,
   get_policy (set_policy T (tbl_insert N.compare ns p (t_policy T))) ns = p.
@@ -43,6 +43,14 @@ Theorem C15_survives_reopen : forall ks EH MF CAP s o, (o = SReopen \/ exists l 
              get_cap T' ns = get_cap (s_tables s) ns.
 Proof. exact reopen_keeps_settings. Qed.
 
+(** once set, a document's policy is returned unchanged after any history of other store operations
+    (24 kinds: writes, other documents' settings and removals, reopen with or without rebuilt tables,
+    refused calls, ...): only setting it again or removing the document changes it *)
+Theorem C15_history_keeps_policy : forall ks EH MF CAP ops s ns,
+  Forall (fun o => (forall p, o <> SSetPolicy ns p) /\ o <> SRemove ns) ops ->
+  get_policy (s_tables (fold_left (fun s o => fst (store_step ks EH MF CAP s o)) ops s)) ns = get_policy (s_tables s) ns.
+Proof. exact history_keeps_policy. Qed.
+
 Print Assumptions C15_get_after_set.
 Print Assumptions C15_set_touches_only_named.
 Print Assumptions C15_set_requires_document.
@@ -53,3 +61,4 @@ Print Assumptions C15_exact_filter.
 Print Assumptions C15_is_prefix_meaning.
 Print Assumptions C15_filter_text_roundtrip.
 Print Assumptions C15_survives_reopen.
+Print Assumptions C15_history_keeps_policy.
